@@ -13,9 +13,12 @@ open HapVerif.Drv
 
   bits4 = crt ca passwd services.  dyn tokens: a allow, d deny, - absent, A "Allow", U "ALLOW",
   x "yes", t "true", e "", s " allow", w "allowed".
-  site: tls tlstcp authtls authtlstcp securecrt secureca authsecret authurl authurlfe;
-  src: ing | svc (object carrying the annotation, namespace a); form: n own other file secother secown;
-  fu: namespace b converted its own ingress first (its userlist / backend exist).
+  site: tls tlstcp gwcert authtls authtlstcp securecrt secureca authsecret authurl authurlfe;
+  src: ing | svc (object carrying the annotation, namespace a);
+  form: n own other file fileb secother secown (fileb = file:// naming the controller's copy of b's secret);
+  fu: 0 first reconciliation; 1 namespace b converted its own ingress first (its userlist / backend /
+  files exist), a is added by a partial sync; 2 a first reconciliation ran with all four keys = allow,
+  then the ConfigMap changed to <bits4> (full sync).
 -/
 
 def hexVal (c : Char) : Option Nat :=
@@ -103,6 +106,7 @@ structure SiteTok where
 def parseSite : String → Option SiteTok
   | "tls" => some ⟨.tls, false, "tls-secret-name"⟩
   | "tlstcp" => some ⟨.tls, true, "tls-secret-name"⟩
+  | "gwcert" => some ⟨.gwCert, false, "gateway-certificate-ref"⟩
   | "authtls" => some ⟨.authTLS, false, "auth-tls-secret"⟩
   | "authtlstcp" => some ⟨.authTLS, true, "auth-tls-secret"⟩
   | "securecrt" => some ⟨.secureCrt, false, "secure-crt-secret"⟩
@@ -126,6 +130,7 @@ def formValue (k : Kind) (form : String) : Option Str :=
   | "own" => some (nsA ++ ['/'] ++ n)
   | "other" => some (nsB ++ ['/'] ++ n)
   | "file" => if k = .svc then none else some ("file:///F/local-".toList ++ n)
+  | "fileb" => if k = .svc || k = .pw then none else some ("file:///D/b_".toList ++ n)
   | "secother" => if k = .svc then none else some ("secret://b/".toList ++ n)
   | "secown" => if k = .svc then none else some ("secret://a/".toList ++ n)
   | _ => none
@@ -135,10 +140,16 @@ def exFU : Existing :=
   { userlist := fun ns n => ns == nsB && n == "pw".toList
     backend := fun ns n => ns == nsB && n == "authsvc".toList }
 
-def targetOf (st : SiteTok) (r : Res) : String :=
+/-- `fileb`: the file is the controller's own copy of namespace b's secret; it exists iff b's
+ingress was converted before (`fu = 1`).  An ingress / gateway certificate taken from a file has
+no parsed certificate and the converter dereferences it: PANIC. -/
+def targetOf (st : SiteTok) (form fu : String) (r : Res) : String :=
   match r with
   | .obj ns _ => if ns = nsA then "own" else if ns = nsB then "foreign" else "none"
-  | .file _ => if st.site = .tls then "PANIC" else "file"
+  | .file _ =>
+    if form = "fileb" && fu != "1" then "none"
+    else if st.site = .tls || st.site = .gwCert then "PANIC"
+    else if form = "fileb" then "foreign" else "file"
   | _ => "none"
 
 def handle (args : List String) (impl : String) : Verdict :=
@@ -191,7 +202,15 @@ def handle (args : List String) (impl : String) : Verdict :=
       let static := s == '1'
       let tok (c : Char) : Str := if c == '1' then sAllow else "deny".toList
       let cm : GlobalCM := { crt := tok c1, ca := tok c2, pw := tok c3, svc := tok c4 }
-      let bits := buildGlobalDynamic static cm
+      let cur := buildGlobalDynamic static cm
+      let allAllow : GlobalCM := { crt := sAllow, ca := sAllow, pw := sAllow, svc := sAllow }
+      -- fu: 0 = first reconciliation, 1 = namespace b was converted before with the same settings,
+      -- 2 = a previous reconciliation ran with every key = allow, then the ConfigMap changed
+      -- (an unchanged ConfigMap does not ask for a second conversion: the first one stands)
+      let noResync := fu == "2" && cm == allAllow
+      let prev := if fu == "0" || noResync then initialBits
+                  else if fu == "2" then buildGlobalDynamic static allAllow else cur
+      let bits := bitsSeenBy st.site prev cur
       let k := st.site.kind
       match formValue k form with
       | none => bad "site-form"
@@ -200,16 +219,17 @@ def handle (args : List String) (impl : String) : Verdict :=
         let fromIng := src == "ing"
         let uses := siteUses st.site bits ex fromIng nsA value
         let reads := siteReads st.site bits ex fromIng nsA value
-        let t := targetOf st uses
-        let r := match reads with | some (.obj ns _) => ns == nsB | _ => false
+        let t := targetOf st form fu uses
+        let r := !noResync && (match reads with | some (.obj ns _) => ns == nsB | _ => false)
         let m := if t = "PANIC" then "PANIC"
-                 else "t=" ++ t ++ ";r=" ++ bit r ++ ";u=" ++ bit (t == "foreign") ++ ";b=" ++ showBits bits
+                 else "t=" ++ t ++ ";r=" ++ bit r ++ ";u=" ++ bit (t == "foreign") ++ ";b=" ++ showBits cur
         let allowed := specAllowed static cm k
         -- the oracle looks at the IMPLEMENTATION's output only
         let fields := impl.splitOn ";"
         let has (x : String) := fields.contains x
         { model := m, agree := m = impl,
-          oracle := oracle st.label k allowed (has "r=1") (has "u=1" || has "t=foreign") (impl == "PANIC"),
+          oracle := oracle (if form == "fileb" && impl != "PANIC" then st.label ++ "-file" else st.label) k allowed
+            (has "r=1") (has "u=1" || has "t=foreign") (impl == "PANIC"),
           trivial := form == "n" || form == "own" }
     | _, _ => bad "site-parse"
   | _ => bad "C09"
